@@ -1,5 +1,5 @@
 //! Build-script helper harness (C15, C16, C18): drives the real `peginator_codegen::Compile`.
-//! usage: vfbscript <run|run_exit|dir|dir_exit> <src> <dest|-> <prefix_hex|-> <derives|-|=> <format 0|1> <ctx|->
+//! usage: vfbscript <run|run_exit|dir|dir_exit> <src> <dest|-> <prefix_hex|-> <derives|-|=> <format 0|1> <ctx|-> [order]
 use peginator_codegen::Compile;
 
 fn unhex(s: &str) -> String {
@@ -26,22 +26,38 @@ fn main() {
     } else {
         Compile::file(&a[2])
     };
-    if a[3] != "-" {
-        c = c.destination(&a[3]);
-    }
-    if a[4] != "-" {
-        c = c.prefix(unhex(&a[4]));
-    }
-    match a[5].as_str() {
-        "-" => {}
-        "=" => c = c.derives(vec![]),
-        d => c = c.derives(d.split(',').map(|x| x.to_string()).collect()),
-    }
-    if a[6] == "1" {
-        c = c.format();
-    }
-    if a[7] != "-" {
-        c = c.user_context_type(&a[7]);
+    // optional 9th argument: the order in which the builder methods are called (letters o=destination,
+    // p=prefix, d=derives, f=format, c=user context); default "opdfc"
+    let order = a.get(8).map(|s| s.as_str()).unwrap_or("opdfc").to_string();
+    for step in order.chars() {
+        match step {
+            'o' => {
+                if a[3] != "-" {
+                    c = c.destination(&a[3]);
+                }
+            }
+            'p' => {
+                if a[4] != "-" {
+                    c = c.prefix(unhex(&a[4]));
+                }
+            }
+            'd' => match a[5].as_str() {
+                "-" => {}
+                "=" => c = c.derives(vec![]),
+                d => c = c.derives(d.split(',').map(|x| x.to_string()).collect()),
+            },
+            'f' => {
+                if a[6] == "1" {
+                    c = c.format();
+                }
+            }
+            'c' => {
+                if a[7] != "-" {
+                    c = c.user_context_type(&a[7]);
+                }
+            }
+            _ => panic!("bad order letter"),
+        }
     }
     if mode.ends_with("_exit") {
         c.run_exit_on_error();
